@@ -46,6 +46,7 @@ type Check struct {
 	depth     int
 	CallSites int
 	lastLoops []int // loops that satisfied the last perIteration query
+	loopFilter []int // if set, onlyAfterExhaustion considers only these loops
 }
 
 func newCheck(prop string, p *Prog, tier string) *Check {
